@@ -12,7 +12,8 @@ import (
 // WebsocketConnection implements a ReadWriteCloser over a websocket connection
 type WebsocketTunnelConnection struct {
 	*websocket.Conn
-	closed bool
+	closed  bool
+	pending []byte // rest of the last message which did not fit into the reader's buffer
 }
 
 func NewWebsocketTunnelConnection(conn *websocket.Conn) *WebsocketTunnelConnection {
@@ -22,6 +23,11 @@ func NewWebsocketTunnelConnection(conn *websocket.Conn) *WebsocketTunnelConnecti
 }
 
 func (wstc *WebsocketTunnelConnection) Read(p []byte) (int, error) {
+	if len(wstc.pending) > 0 {
+		n := copy(p, wstc.pending)
+		wstc.pending = wstc.pending[n:]
+		return n, nil
+	}
 	messageType, message, err := wstc.Conn.ReadMessage()
 	if messageType == websocket.CloseMessage || messageType == -1 {
 		return 0, io.EOF
@@ -31,14 +37,11 @@ func (wstc *WebsocketTunnelConnection) Read(p []byte) (int, error) {
 		return 0, errors.WithStack(err)
 	}
 
-	msgLen := len(message)
-	if len(p) < msgLen {
-		return 0, errors.Errorf("Buffer to small: message size is %v, but buffer size is %v", msgLen, len(p))
-	}
+	// This is a byte stream: a message larger than the caller's buffer is handed out in pieces
+	n := copy(p, message)
+	wstc.pending = message[n:]
 
-	copy(p, message)
-
-	return msgLen, nil
+	return n, nil
 }
 
 // Write will take a stream of bytes and send it over a websocket connection.
